@@ -77,6 +77,18 @@ Theorem C10_queue_with_room : forall ls s rs hid h,
 Proof. exact queue_with_room. Qed.
 Print Assumptions C10_queue_with_room.
 
+(* (c) the end of a handler's life takes nothing back: in whatever state a run leaves the handler (removed,
+   closed by a shutdown of the endpoint, ended by its own filter - its queue may be closed), a consumer that
+   goes on receiving obtains everything that waits in the queue; it has then received exactly what the
+   filter matched among the messages that found room, in arrival order *)
+Theorem C10_end_takes_nothing_back : forall ls s rs hid h,
+  run ls = RRun s rs -> nth_error (st_hs s) hid = Some h ->
+  exists s' rs' h', run (ls ++ repeat (LRecv hid) (List.length (h_buf h))) = RRun s' rs' /\
+    nth_error (st_hs s') hid = Some h' /\ h_buf h' = [] /\ h_closed h' = h_closed h /\
+    h_recvd h' = expect (h_filter h) [] (events h).
+Proof. exact drain_delivers_selection. Qed.
+Print Assumptions C10_end_takes_nothing_back.
+
 Example C10_nonvacuous :
   Forall (Forall valid_msg) ex_senders /\
   exists w' tagged,
